@@ -251,6 +251,8 @@ def getitem(vm, s, c, k):
         return lift_key(vm, s, k, lambda kk: getitem(vm, s, c, kk))
     if t is VDict:
         alts, missing = dict_get(vm, s, c, k)
+        if not alts and c.default_factory is None:
+            raise _vmraise(KeyError(k if is_concrete(k) else "<sym>"))
         if missing is not FALSE and AND(s.guard, missing) is not FALSE:
             if c.default_factory is not None:
                 if vm.feasible(AND(s.guard, s.cg, missing)):
